@@ -243,6 +243,36 @@ func mutateStructural(w *World, m storage.Message, by int, kind string) (storage
 		x.RecipientAddr = ""
 		pid := []int{len(w.Nodes), len(w.Nodes) + 7, -1, 1 << 31, 255}[w.Tape.Choose(5, "nobody")]
 		x.Data, _ = json.Marshal(requests.DKGProposalConfirmationErrorRequest{ParticipantId: pid, Error: requests.NewFSMError(errors.New("made up")), CreatedAt: time.Now()})
+	case "partial-signature-for-unknown-message":
+		// a participant's answer to the running batch that also (or only) carries a
+		// partial signature under a message identifier the batch does not contain
+		if m.Event != "event_signing_partial_sign_received" {
+			return x, false
+		}
+		var req map[string]interface{}
+		if json.Unmarshal(m.Data, &req) != nil {
+			return x, false
+		}
+		ps, _ := req["PartialSigns"].([]interface{})
+		if len(ps) == 0 {
+			return x, false
+		}
+		first, _ := ps[0].(map[string]interface{})
+		if first == nil {
+			return x, false
+		}
+		extra := map[string]interface{}{}
+		for k, v := range first {
+			extra[k] = v
+		}
+		extra["MessageID"] = []string{"no-such-message", "", fmt.Sprint(first["MessageID"]) + " "}[w.Tape.Choose(3, "unknownId")]
+		if w.Tape.Bool(1, 2, "inPlace") {
+			ps[w.Tape.Choose(len(ps), "which")] = extra
+		} else {
+			ps = append(ps, extra)
+		}
+		req["PartialSigns"] = ps
+		x.Data, _ = json.Marshal(req)
 	case "baked-range-negative", "baked-range-huge":
 		if m.Event != "event_signing_start" {
 			return x, false
@@ -309,6 +339,9 @@ func runC18(w *World, tier string) (bool, interface{}) {
 			kind := c18Kinds[w.Tape.Choose(len(c18Kinds), "kind")]
 			if m.Event == "event_sig_proposal_init" && w.Tape.Bool(1, 2, "oddKey") {
 				kind = "registered-key-of-odd-length"
+			}
+			if m.Event == "event_signing_partial_sign_received" && w.Tape.Bool(1, 3, "unknownMessage") {
+				kind = "partial-signature-for-unknown-message"
 			}
 			if w.Tape.Bool(1, 6, "replayEarlier") {
 				// a well-formed message at the wrong moment: an earlier genuine message of
